@@ -24,7 +24,7 @@ Proof.
   assert (E : forall p, cell_abs (C 0 0) p = p) by (intros [x y]; reflexivity).
   destruct f; cbn [fragment_abs bounds]; unfold line_abs; cbn [lstart lend mlline ccenter cradius astart aend rstart rend]; rewrite ?E; auto.
   - intros W. unfold polygon_bounds; cbn [ppoints]. rewrite (map_ext _ (fun p => p) E), map_id. reflexivity.
-  - intros _. destruct t as [[x y] s]; cbn. unfold celltext_end_cell, cell_add; cbn. rewrite !Z.add_0_r. reflexivity.
+  - intros _. destruct t as [[x y] s]; cbn. unfold celltext_last_cell, cell_add; cbn [ctstart ctcontent cx cy]. rewrite !Z.add_0_r. reflexivity.
 Qed.
 Lemma abs_as_shift c f : fragment_abs c f = shift_frag (cx c) (cy c) (fragment_abs (C 0 0) f).
 Proof.
@@ -148,7 +148,7 @@ Proof.
     destruct B as [[[p0 q0] p1] q1].
     destruct (cx (ctstart t) <? cx (ctstart t0)) eqn:Lt; cbn [option_map]; intros H; inversion H; subst; clear H;
       rewrite !fbox_plain by exact I; unfold bbox; cbn [bounds];
-      unfold box_in, top_left_most, bottom_right_most, celltext_end_cell; cbn [px py cx cy ctstart ctcontent];
+      unfold box_in, top_left_most, bottom_right_most, celltext_last_cell; cbn [px py cx cy ctstart ctcontent];
       rewrite text_columns_app; intros Ha Hb; apply orb_true_iff in Ex; rewrite !Z.eqb_eq in Ex;
       unfold CW, CH in *; lia.
 Qed.
@@ -259,7 +259,7 @@ Lemma Qc_text e : In e cells -> Qc e (cell_text_frag (snd e)).
 Proof.
   intros Ie. destruct (cells_in e Ie) as [C1 [C2 [C3 [C4 C5]]]]. split; [split; exact I|].
   unfold within. rewrite fbox_plain by exact I. unfold bbox, cell_text_frag; cbn [bounds].
-  unfold top_left_most, bottom_right_most, celltext_end_cell, text_columns; cbn [ctstart ctcontent cx cy px py fold_left].
+  unfold top_left_most, bottom_right_most, celltext_last_cell, text_columns; cbn [ctstart ctcontent cx cy px py fold_left].
   unfold local_canvas, canvas, shiftbox, box_in.
   assert (CC : 1 <= char_cols (snd e)) by (unfold char_cols; destruct (char_width (snd e)); lia).
   destruct (snd e =? 0); unfold CW, CH in *; lia.
@@ -300,7 +300,7 @@ Proof.
   intros [W Rd]. destruct f; cbn [bounds]; try (unfold seg_bounds; cbn [fst snd px py]; lia).
   - cbn in Rd. cbn [fst snd px py]. lia.
   - unfold polygon_bounds. destruct (ppoints p) as [|q t]; cbn [fst snd px py]; [lia|]. split; apply zmin_max_list.
-  - unfold top_left_most, bottom_right_most, celltext_end_cell; cbn [fst snd px py cx cy].
+  - unfold top_left_most, bottom_right_most, celltext_last_cell; cbn [fst snd px py cx cy].
     assert (0 <= text_columns (ctcontent t)).
     { unfold text_columns. assert (G : forall l a, 0 <= a -> 0 <= fold_left (fun acc c => if c =? 0 then acc else acc + char_cols c) l a).
       { induction l as [|c r IH]; intros a Ha; cbn [fold_left]; [exact Ha|]. apply IH. destruct (c =? 0); [exact Ha|].
@@ -509,6 +509,22 @@ Proof.
   destruct (endorse_cells_in_canvas (cb_cells cb) _ _ CI acc groups E) as [A G]. split.
   - eapply Forall_impl; [|exact A]. intros f [_ [_ W]]. exact W.
   - eapply Forall_impl; [|exact G]. intros g Fg. eapply Forall_impl; [|exact Fg]. intros f [_ [_ W]]. exact W.
+Qed.
+
+(** the same with the side facts the pipeline invariant carries: circles have a non-negative radius *)
+Theorem recognised_good_inside_canvas input cb acc groups :
+  cellbuffer_from input = Ok cb -> endorse_cells (cb_cells cb) = Ok (acc, groups) ->
+  Forall (fun f => radius_ok (fs_frag f) /\ within (canvas_of_cells (cb_cells cb)) (fs_frag f)) acc
+  /\ Forall (Forall (fun f => radius_ok (fs_frag f) /\ within (canvas_of_cells (cb_cells cb)) (fs_frag f))) groups.
+Proof.
+  intros CB E.
+  assert (CI : forall e, In e (cb_cells cb) ->
+     0 <= cx (fst e) /\ cx (fst e) <= cx (cells_max (cb_cells cb)) /\ cx (fst e) + char_cols (snd e) - 1 <= cx (cells_max (cb_cells cb))
+     /\ 0 <= cy (fst e) /\ cy (fst e) <= cy (cells_max (cb_cells cb))).
+  { intros e Ie. destruct (cellbuffer_nonneg input cb e CB Ie) as [N1 N2]. destruct (cells_max_bounds _ e Ie) as [M1 [M2 M3]]. repeat split; assumption. }
+  destruct (endorse_cells_in_canvas (cb_cells cb) _ _ CI acc groups E) as [A G]. split.
+  - eapply Forall_impl; [|exact A]. intros f [_ [[_ Rd] W]]. split; assumption.
+  - eapply Forall_impl; [|exact G]. intros g Fg. eapply Forall_impl; [|exact Fg]. intros f [_ [[_ Rd] W]]. split; assumption.
 Qed.
 
 (** the bounds of a fragment lie within its box *)
